@@ -59,7 +59,7 @@ def check(pm: ProgramModel, ctx: Ctx) -> None:
             return Poly.var(feature._f["name"])
         it.native[rec.qual] = stub
         it.native["math.prod"] = lambda xs, start=1: prod([start] + list(xs))
-        it.native["itertools.combinations"] = lambda xs, k: list(itertools.combinations(list(xs), k))
+        it.native["itertools.combinations"] = lambda xs, k: iter(list(itertools.combinations(list(it.iterate(xs)), k)))
         it.native["functools.reduce"] = _reduce(it)
         return it
 
